@@ -1,7 +1,7 @@
 (** C12 — malformed AML is rejected with an error, never a crash, hang or stray pointer.
     Statements only; every proof is [exact <lemma>] (Aml/LexProofs.v). *)
 From Coq Require Import NArith List.
-From FF Require Import Lib.Word Gen.Consts_device_acpi_aml Aml.Stream Aml.Lex Aml.LexProofs Aml.Tree Aml.TreeSpec Aml.Parser Aml.ParserProofs Aml.ParserProofsTop Aml.ParserTotalFirst Aml.ParserTotalConn Aml.ParserTotalTop Aml.ParserTotalNonNamed Aml.ParserTotalCalls Aml.ParserTotalReloc Aml.ParserTotalMerge Aml.ParserTotalResolve.
+From FF Require Import Lib.Word Gen.Consts_device_acpi_aml Aml.Stream Aml.Lex Aml.LexProofs Aml.Tree Aml.TreeSpec Aml.Parser Aml.ParserProofs Aml.ParserProofsTop Aml.ParserTotalFirst Aml.ParserTotalConn Aml.ParserTotalTop Aml.ParserTotalNonNamed Aml.ParserTotalCalls Aml.ParserTotalReloc Aml.ParserTotalMerge Aml.ParserTotalResolve Aml.ParserTotalBase Aml.ParserTotalLex Aml.ParserTotalTree Aml.ParserTotalDefer Aml.ParserTotalDeferW Aml.ParserTotalDeferV.
 Import ListNotations.
 Local Open Scope N_scope.
 
@@ -380,3 +380,73 @@ Theorem C12_parse_total_partial_nopanic_resolve_loop :
     end.
 Proof. exact resolve_loop_never_panics. Qed.
 Print Assumptions C12_parse_total_partial_nopanic_resolve_loop.
+
+(** ---- parseDeferredBlocks: one deferred block ---- *)
+
+(** [parse_total_partial] (13), passes covered: the work parseDeferredBlocks does on ONE object whose arguments were skipped
+    by the first pass (opcode-table row with pOpFlagDeferParsing: Buffer, While, BankField): mode := parseModeAllBlocks,
+    SetPkgEnd / SetOffset to the object's first argument, parseObjectArgs - i.e. the nine mutually recursive functions
+    parseNextObject / parseObjectArgs / parseArgs / parseArg / termList / parseNamePathOrMethodCall (names are resolved
+    with Find while parsing; a resolved Method makes the parser read `ArgAt(target, 1).value.(uint64)` and parse that many
+    call arguments) / parseStrictTermArg (attach to the parent while the arguments are parsed, detach afterwards; popPkgEnd
+    at the end of a package) / parseTarget, all of them in the mode of the deferred pass - and the final popping of the pkgEnd
+    stack.  From ANY state in which the pool satisfies [R] with valid opcode-table indexes, the reader and the whole-parser
+    invariant [Inv] (table link, slices inside) hold, the scope stack holds live objects, the root is live, the pool has room
+    for 8 objects per byte of the table, and every Method object is typed ([TM NoX]: its first two children exist, neither
+    has a deferred or field-list row, the second carries a number): NEVER a panic - no empty scope stack, no nil
+    dereference after Find or ArgAt, no failed `.([]byte)` / `.(uint64)` assertion, every append / detach legal - and
+    [R], valid indexes, the reader invariant, live scopes and (after success) the typing of all Methods, including those the
+    block declares, hold again; the pool grows by at most 8 objects per table byte + 3.  Fuel exhaustion is not excluded.
+    Not covered here: the walk of parseDeferredBlocks over all objects (next theorem), and the derivation of [TM NoX] from
+    the earlier passes. *)
+Theorem C12_parse_total_partial_nopanic_deferred_block :
+  forall (tbls : list (list N)) (fuel parseFuel : nat) (obj : N) (oo : Obj) (op fl af : N) (s : pstate) (g : ghost),
+    R (p_tree s) g ->
+    (forall i o, TreeSpec.get (p_tree s) i = Some o -> o_opcode o <> opFreed -> opInfo (o_infoIndex o) <> None) ->
+    rok (p_r s) -> Forall (glive g) (p_scopeStack s) -> Inv tbls s ->
+    glive g 0 -> glive g obj ->
+    TreeSpec.get (p_tree s) obj = Some oo -> opInfo (o_infoIndex oo) = Some (op, fl, af) ->
+    hasFlag fl aml_pOpFlagDeferParsing = true -> o_tableHandle oo = p_handle s ->
+    (has_fl af -> has_parent g obj) -> TM NoX s g ->
+    lp s + 8 * r_len (p_r s) + 7 <= InvalidIndex ->
+    match parseDeferredBlocks (S fuel) parseFuel obj s with
+    | Ok (res, s') => exists g', R (p_tree s') g' /\
+        (forall i o, TreeSpec.get (p_tree s') i = Some o -> o_opcode o <> opFreed -> opInfo (o_infoIndex o) <> None) /\
+        rok (p_r s') /\ Forall (glive g') (p_scopeStack s') /\
+        gext g g' /\ glive g' 0 /\ lp s' <= lp s + 8 * r_len (p_r s) + 3 /\ (res = ROk -> TM NoX s' g')
+    | Panic => False
+    | OutOfFuel => True
+    end.
+Proof. exact deferred_block_never_panics. Qed.
+Print Assumptions C12_parse_total_partial_nopanic_deferred_block.
+
+(** [parse_total_partial] (13), passes covered: the whole of parseDeferredBlocks - the depth-first walk from any live object
+    [x] (ParseAML starts it at the root) that parses every pending deferred object it meets (row with pOpFlagDeferParsing and
+    the handle of the table being parsed; the walk does not descend below such an object) as in the previous theorem and
+    otherwise follows the first / next links, re-reading `next` after each child.  [dcnt s g x n] describes what the walk
+    will meet: [n] pending deferred objects, NONE of which has a FieldList argument - i.e. pending Buffer and While objects;
+    a pending BankField (the only deferred row with a field list; its parse inserts the new fields as siblings into the list
+    the walk is iterating) is excluded.  With room in the pool for [n] blocks (8 objects per table byte + 3 each) and the
+    hypotheses of the previous theorem: NEVER a panic, and [R], valid indexes, the reader invariant, live scopes and (after
+    success) the typing of the Methods hold again.  The proof shows that a block changes neither the child list of any
+    object that is not itself pending nor any payload field other than values, and (partial correctness, ParserTotalDeferH)
+    that no parser function changes the table handle, so the count of what is still to be visited is stable.
+    Fuel exhaustion is not excluded.  Not covered: pending BankFields, and the derivation of [TM NoX] and [dcnt] from the
+    earlier passes. *)
+Theorem C12_parse_total_partial_nopanic_deferred_walk :
+  forall (tbls : list (list N)) (fuel parseFuel : nat) (x n : N) (s : pstate) (g : ghost),
+    R (p_tree s) g ->
+    (forall i o, TreeSpec.get (p_tree s) i = Some o -> o_opcode o <> opFreed -> opInfo (o_infoIndex o) <> None) ->
+    rok (p_r s) -> Forall (glive g) (p_scopeStack s) -> Inv tbls s ->
+    glive g 0 -> TM NoX s g -> dcnt s g x n ->
+    lp s + n * (8 * r_len (p_r s) + 3) + 4 <= InvalidIndex ->
+    match parseDeferredBlocks fuel parseFuel x s with
+    | Ok (res, s') => exists g', R (p_tree s') g' /\
+        (forall i o, TreeSpec.get (p_tree s') i = Some o -> o_opcode o <> opFreed -> opInfo (o_infoIndex o) <> None) /\
+        rok (p_r s') /\ Forall (glive g') (p_scopeStack s') /\
+        gext g g' /\ glive g' 0 /\ lp s' <= lp s + n * (8 * r_len (p_r s) + 3) /\ (res = ROk -> TM NoX s' g')
+    | Panic => False
+    | OutOfFuel => True
+    end.
+Proof. exact deferred_walk_never_panics. Qed.
+Print Assumptions C12_parse_total_partial_nopanic_deferred_walk.
